@@ -118,10 +118,14 @@ type c7prog struct {
 	structs   []*c7callable // name + outs used as members
 	callables []*c7callable
 	top       *c7call
+	// revCalls: write the calls of every pipeline in reverse order.  MRO
+	// does not require calls to be written in dependency order (the compiler
+	// sorts them); typing must not depend on the order either.
+	revCalls bool
 }
 
 func (p *c7prog) clone() *c7prog {
-	q := &c7prog{filetypes: p.filetypes, structs: p.structs}
+	q := &c7prog{filetypes: p.filetypes, structs: p.structs, revCalls: p.revCalls}
 	cl := func(c *c7call) *c7call {
 		if c == nil {
 			return nil
@@ -198,7 +202,11 @@ func (p *c7prog) render(stageCmd string) string {
 			continue
 		}
 		b.WriteString(")\n{\n")
-		for _, cs := range c.calls {
+		for i := range c.calls {
+			cs := c.calls[i]
+			if p.revCalls {
+				cs = c.calls[len(c.calls)-1-i]
+			}
 			wcall(cs, "    ")
 			b.WriteString("\n")
 		}
@@ -385,8 +393,8 @@ func (g *c7gen) project(s c7src, depth int) []c7src {
 		// lift the member type through the outer dimensions
 		it := m.t
 		if s.t.mp > 0 {
-			if it.mp > 0 {
-				continue // projection through nested maps
+			if it.mp > 0 || it.base == "map" {
+				continue // projection through nested maps (map<map[]> cannot be written either)
 			}
 			it = c7ty{base: it.base, mp: s.t.mp + it.arr}
 		}
@@ -790,6 +798,10 @@ func (g *c7gen) gen() *c7prog {
 		callables = append(callables, g.genPipeline(callables, false))
 	}
 	top := g.genPipeline(callables, true)
+	if g.r.Intn(3) == 0 {
+		g.p.revCalls = true
+		g.stats["calls_written_in_reverse_order"]++
+	}
 	g.p.top = &c7call{id: top.name, callee: top.name}
 	for _, in := range top.ins {
 		g.p.top.binds = append(g.p.top.binds, c7bind{in.name, g.genExp(nil, in.t, 2)})
@@ -1295,4 +1307,81 @@ func c7sortedStats(m map[string]int) string {
 		p[i] = fmt.Sprintf("%q:%d", k, m[k])
 	}
 	return "{" + strings.Join(p, ",") + "}"
+}
+
+// ---------------------------------------------------------------- chains
+//
+// The family "dependency chains written out of order": a chain of calls in
+// which each consumes the output of the previous one, some of them map calls
+// (which add a dimension to their outputs that is only known once they have
+// been checked), written in the pipeline in reverse, rotated or shuffled
+// order, well typed or with one consumer of the wrong dimension.  The
+// compiler sorts the calls before it checks them; the verdict and the place
+// of the error must not depend on the order in which they were written.
+func c07ChainPrograms(rng *hx.Rng, n int, stageCmd string) []string {
+	var out []string
+	for i := 0; i < n; i++ {
+		length := 3 + rng.Intn(3)
+		bad := -1
+		if rng.Intn(2) == 0 {
+			bad = 1 + rng.Intn(length-1)
+		}
+		var calls []string
+		cur := ""     // reference to the previous result
+		arr := false  // its type: int[] or int
+		for k := 0; k < length; k++ {
+			id := fmt.Sprintf("A%d", k)
+			switch {
+			case k == 0:
+				calls = append(calls, fmt.Sprintf("    map call ADD as %s(\n        a = split [\n            1,\n            2,\n            3,\n        ],\n        b = 0,\n    )\n", id))
+				cur, arr = id+".y", true
+			case arr != (k == bad):
+				// an array is summed (or, for the ill-typed step, a scalar is)
+				calls = append(calls, fmt.Sprintf("    call SUM as %s(\n        xs = %s,\n    )\n", id, cur))
+				cur, arr = id+".s", false
+			case rng.Bool() || k == bad:
+				calls = append(calls, fmt.Sprintf("    call ID as %s(\n        v = %s,\n    )\n", id, cur))
+				cur, arr = id+".w", false
+			default:
+				calls = append(calls, fmt.Sprintf("    map call ADD as %s(\n        a = split [\n            4,\n            5,\n        ],\n        b = %s,\n    )\n", id, cur))
+				cur, arr = id+".y", true
+			}
+		}
+		// the order in which they are written
+		order := make([]int, length)
+		for k := range order {
+			order[k] = k
+		}
+		switch rng.Intn(4) {
+		case 0: // reverse
+			for a, b := 0, length-1; a < b; a, b = a+1, b-1 {
+				order[a], order[b] = order[b], order[a]
+			}
+		case 1: // rotate
+			r := 1 + rng.Intn(length-1)
+			for k := range order {
+				order[k] = (k + r) % length
+			}
+		case 2: // shuffle
+			for k := length - 1; k > 0; k-- {
+				j := rng.Intn(k + 1)
+				order[k], order[j] = order[j], order[k]
+			}
+		}
+		rt := "int"
+		if arr {
+			rt = "int[]"
+		}
+		var b strings.Builder
+		fmt.Fprintf(&b, "stage ADD(\n    in  int a,\n    in  int b,\n    out int y,\n    src comp \"%s ADD\",\n)\n\n", stageCmd)
+		fmt.Fprintf(&b, "stage SUM(\n    in  int[] xs,\n    out int s,\n    src comp \"%s SUM\",\n)\n\n", stageCmd)
+		fmt.Fprintf(&b, "stage ID(\n    in  int v,\n    out int w,\n    src comp \"%s ID\",\n)\n\n", stageCmd)
+		fmt.Fprintf(&b, "pipeline P(\n    out %s r,\n)\n{\n", rt)
+		for _, k := range order {
+			b.WriteString(calls[k] + "\n")
+		}
+		fmt.Fprintf(&b, "    return (\n        r = %s,\n    )\n}\n\ncall P()\n", cur)
+		out = append(out, b.String())
+	}
+	return out
 }
